@@ -80,6 +80,17 @@ impl Header {
         //# If the scheme does not have a mandatory authority component and none
         //# is provided in the request target, the request MUST NOT contain the
         //# :authority pseudo-header or Host header fields.
+
+        // A request has one authority: several Host field lines are acceptable only when
+        // they all carry the same value (RFC 9110 section 7.2). The first one is compared
+        // with `:authority` below.
+        let mut hosts = self.fields.get_all("host").iter();
+        if let Some(first) = hosts.next() {
+            if hosts.any(|h| h != first) {
+                return Err(HeaderError::ContradictedAuthority);
+            }
+        }
+
         match (self.pseudo.authority, self.fields.get("host")) {
             (None, None) => return Err(HeaderError::MissingAuthority),
             (Some(a), None) => uri = uri.authority(a.as_str().as_bytes()),
